@@ -43,8 +43,10 @@ def _wsd(las, names):
     return None
 
 
-def _check_las(las, xs, cols, names, sel, tol, stop_key, step_key, xs_well=None, strt_key='-', skip_x=()):
-    """xs: X of every source frame; cols: source values per written channel (list of lists over all frames); sel: selected indices."""
+def _check_las(las, xs, cols, names, sel, tol, well, step_mnems=('STEP',), skip_x=()):
+    """xs: X of every source frame; cols: source values per written channel (list of lists over all frames); sel: selected indices;
+    well: the expected (STRT, STOP, STEP) numbers - what the property demands, or, for a listed finding, EXACTLY what that finding is
+    documented to produce instead (never 'anything'); an entry None means that line is not decided (STEP of a single row)."""
     import numpy as np
     fr = las.frame_array
     if fr is None:
@@ -61,19 +63,45 @@ def _check_las(las, xs, cols, names, sel, tol, stop_key, step_key, xs_well=None,
                 continue
             if abs(g - w) > tol:
                 return False
-    strt, stop, step = _wsd(las, ['STRT']), _wsd(las, ['STOP']), _wsd(las, ['STEP'])
-    if xs_well is not None:
-        xs = xs_well
-    if not EXCL(strt_key) and (strt is None or abs(float(strt) - xs[sel[0]]) > tol):
-        return False
-    if not EXCL(stop_key):
-        if stop is None or abs(float(stop) - xs[sel[-1]]) > tol:
-            return False
-    if len(sel) > 1 and not EXCL(step_key) and not EXCL(stop_key):
-        mean = (xs[sel[-1]] - xs[sel[0]]) / (len(sel) - 1)
-        if step is None or abs(float(step) - mean) > tol:
+    for mnems, want in ((['STRT'], well[0]), (['STOP'], well[1]), (list(step_mnems), well[2])):
+        if want is None:
+            continue
+        got = _wsd(las, mnems)
+        if got is None or abs(float(got) - want) > tol:
             return False
     return True
+
+
+def _known_written(kind, a, b, c, n):
+    """The frames LIS / BIT ToLAS write today (known finding lis_bit_tolas_slice_drops_last_frames): first : last() + 1 : step with the
+    documented first / last / step."""
+    first, step = _known_first_step(kind, a, b, c, n)
+    return list(range(n))[first:_known_last(kind, a, b, c, n) + 1:step]
+
+
+def _well_strict(xs, sel):
+    """first X, last X and mean spacing of the rows written."""
+    return (xs[sel[0]], xs[sel[-1]], (xs[sel[-1]] - xs[sel[0]]) / (len(sel) - 1) if len(sel) > 1 else None)
+
+
+def _known_first_step(kind, a, b, c, n):
+    """first() and step() of the selectors as documented (Python slice semantics; Sample: step n // size, or 1)."""
+    if kind == 0:
+        return 0, 1
+    if kind == 1:
+        start, stop, step = slice(a, b, c).indices(n)
+        return start, step
+    return 0, (1 if c >= n else n // c)
+
+
+def _known_last(kind, a, b, c, n):
+    """The index Slice.last / Sample.last return today (known finding slice_last_not_last_selected), written out from its description."""
+    if kind == 0:
+        return n - 1
+    if kind == 1:
+        start, stop, step = slice(a, b, c).indices(n)
+        return n - 1 if n < stop else step * (stop // step) - 1
+    return n - 1 if c >= n else n - c
 
 
 # ---------------------------------------------------------------------------------------------------- RP66V1
@@ -129,7 +157,15 @@ def _rp66(order, kind, a, b, c, m1, m2, again=False):
             cols = [[v[i][0] for v in vals] for i in want_ch]
             if len(sel) == 0:
                 continue
-            if not _check_las(las, xs, cols, names, sel, 0.0005, 'rp66v1_tolas_stop_from_slice_last', 'rp66v1_tolas_stop_from_slice_last'):
+            well = _well_strict(xs, sel)
+            if EXCL('rp66v1_tolas_stop_from_slice_last'):
+                # listed finding, tolerated exactly: STOP is the X of the frame the documented (wrong) last-index formula names, STEP follows from it
+                kl = _known_last(kind, a, b, c, len(frames))
+                if 0 <= kl < len(xs):
+                    well = (xs[sel[0]], xs[kl], (xs[kl] - xs[sel[0]]) / (len(sel) - 1) if len(sel) > 1 else None)
+                else:
+                    well = (xs[sel[0]], None, None)
+            if not _check_las(las, xs, cols, names, sel, 0.0005, well):
                 return False
         return True
     finally:
@@ -160,8 +196,7 @@ def _lis(f1, indirect, tif, kind, a, b, c):
     if len(_indices(kind, a, b, c, len(model))) == 0:
         return True
     if EXCL('lis_bit_tolas_slice_drops_last_frames'):
-        s_ = _selector(kind, a, b, c)
-        if len(list(range(len(model)))[s_.first(len(model)):s_.last(len(model)) + 1:s_.step(len(model))]) == 0:
+        if len(_known_written(kind, a, b, c, len(model))) == 0:
             return True         # known: nothing is written at all
     tmp = tempfile.mkdtemp(prefix='verif_c11_')
     try:
@@ -192,14 +227,17 @@ def _lis(f1, indirect, tif, kind, a, b, c):
         cols = [[row[1] for row in model], [row[2] for row in model]]
         if EXCL('lis_bit_tolas_slice_drops_last_frames'):
             # known: the frames written are first : last()+1 : step
-            n = len(model)
-            s = _selector(kind, a, b, c)
-            sel = list(range(n))[s.first(n):s.last(n) + 1:s.step(n)]
+            sel = _known_written(kind, a, b, c, len(model))
             if len(sel) == 0:
                 return True
             if skip_x != ():
                 skip_x = tuple(i for i in range(len(sel)) if H6._known_x_var(sel, fpr, i))
-        return _check_las(las, xs, cols, names, sel, 0.0006, 'lis_tolas_well_section_ignores_slice', 'lis_tolas_well_section_ignores_slice', xs_well, 'lis_tolas_well_section_ignores_slice', skip_x)
+        xw = xs_well if xs_well is not None else xs
+        well = _well_strict(xw, sel)
+        if EXCL('lis_tolas_well_section_ignores_slice'):
+            # listed finding, tolerated exactly: STRT / STOP are the first / last X of the WHOLE log pass, STEP the frame spacing times the selector's step
+            well = (xw[0], xw[-1], (xw[1] - xw[0]) * _known_first_step(kind, a, b, c, len(model))[1])
+        return _check_las(las, xs, cols, names, sel, 0.0006, well, skip_x=skip_x)
     finally:
         shutil.rmtree(tmp, ignore_errors=True)
 
@@ -230,8 +268,7 @@ def _bit(nch, f0, f1, inc, kind, a, b, c, m1):
     if len(_indices(kind, a, b, c, f0 + f1)) == 0:
         return True
     if EXCL('lis_bit_tolas_slice_drops_last_frames') and kind:
-        s_ = _selector(kind, a, b, c)
-        if len(list(range(f0 + f1))[s_.first(f0 + f1):s_.last(f0 + f1) + 1:s_.step(f0 + f1)]) == 0:
+        if len(_known_written(kind, a, b, c, f0 + f1)) == 0:
             return True         # known: nothing is written at all (and the conversion fails)
     tmp = tempfile.mkdtemp(prefix='verif_c11_')
     try:
@@ -251,8 +288,7 @@ def _bit(nch, f0, f1, inc, kind, a, b, c, m1):
         if len(sel) == 0:
             return True
         if EXCL('lis_bit_tolas_slice_drops_last_frames') and kind:
-            s = _selector(kind, a, b, c)
-            sel = list(range(n))[s.first(n):s.last(n) + 1:s.step(n)]
+            sel = _known_written(kind, a, b, c, n)
             if len(sel) == 0:
                 return True
         las = _read_las(os.path.join(tmp, 'out', outs[0]))
@@ -261,7 +297,8 @@ def _bit(nch, f0, f1, inc, kind, a, b, c, m1):
         want = [c_ for c_ in range(nch) if (not chans) or H13.NAMES[c_].decode() in chans]
         names = ['X'] + [H13.NAMES[c_].decode().strip() for c_ in want]
         cols = [exp[c_] for c_ in want]
-        return _check_las(las, xs, cols, names, sel, 0.0006, 'bit_tolas_step_mnemonic', 'bit_tolas_step_mnemonic')
+        # listed finding bit_tolas_step_mnemonic, tolerated exactly: the step line carries the mnemonic STRP (its value must still be right)
+        return _check_las(las, xs, cols, names, sel, 0.0006, _well_strict(xs, sel), step_mnems=('STRP',) if EXCL('bit_tolas_step_mnemonic') else ('STEP',))
     finally:
         shutil.rmtree(tmp, ignore_errors=True)
 
